@@ -10,9 +10,89 @@ Decided:
               installs the decoded index; the reopen path (load_*_index_from_manifest) decodes with the same decoder the
               bytes at the manifest's offset/length.
   MPT-C28c    put_internal's instant-index entry marks tantivy_dirty (so the commit takes the rebuild arm).
+  AGREE-C28d  sibling agreement of range checks: every comparison of a range end (offset + length of a persisted
+              artifact) with a limit (header.footer_offset / the file length) uses the same relation everywhere -
+              `end > limit` rejects, `end <= limit` accepts (12 sites on the pinned tree, no exception). The writers
+              place the last artifact so that it ends exactly at footer_offset, so a `>=` / `<` variant rejects a
+              valid file: the reopened handle then lacks an index the live handle has. Comparisons inside closures
+              are resolved through their call sites.
 Not decided: equality of query results before/after reopen (values); Tantivy's own persistence (external crate)."""
 from . import lib
 from .facts import Place, op_place
+
+
+CMP = {'Gt': '>', 'Ge': '>=', 'Lt': '<', 'Le': '<='}
+FLIPR = {'>': '<', '>=': '<=', '<': '>', '<=': '>='}
+
+
+def _closure_arg_slices(F, g):
+    """for closure g: param local -> list of slices of the matching call-site operand in the parent"""
+    parent = F.fns.get(g.r.get('parent') or g.path.rsplit('::{closure', 1)[0])
+    out = {}
+    if parent is None:
+        return out
+    for c in parent.calls():
+        if c.local_callee != g.path or len(c.args) < 2:
+            continue
+        tp = op_place(c.args[1])
+        if tp is None:
+            continue
+        for bb, i, st in parent.stmts():
+            if st['lhs']['l'] == tp.l and st['rv']['k'] == 'agg' and st['rv'].get('ak') == 'tuple':
+                for k, o in enumerate(st['rv']['ops']):
+                    out.setdefault(2 + k, []).append(lib.slice_back(parent, [o], through_calls=True, at=(bb, i)))
+    return out
+
+
+def range_checks(ctx, F):
+    ctx.rule('AGREE-C28d', 'range end (offset+length) vs footer_offset / file length: rejection is strict (end > limit) at every site')
+
+    def is_end(sl):
+        fl = {x for o, x in sl.fields}
+        return bool({'Add', 'AddWithOverflow'} & sl.ops or any(c.name in ('checked_add', 'saturating_add') for c in sl.calls)) and \
+            any('offset' in x for x in fl) and any(('length' in x or x.endswith('_len') or 'size' in x) for x in fl)
+
+    def is_limit(sl, fn):
+        fl = {x for o, x in sl.fields}
+        if {'Add', 'AddWithOverflow'} & sl.ops:
+            return False
+        return 'footer_offset' in fl or any(c.name in ('len', 'metadata') and 'Metadata' in (c.callee or c.key) for c in sl.calls) or \
+            any(c.is_(('Metadata::len', 'File::metadata')) for c in sl.calls)
+    n = 0
+    for f in sorted(F.fns.values(), key=lambda x: x.path):
+        if f.r.get('derive'):
+            continue
+        sub = None
+        for bb, i, st in f.stmts():
+            rv = st['rv']
+            if rv['k'] != 'bin' or rv['op'] not in CMP:
+                continue
+            sides = []
+            for o in (rv['a'], rv['b']):
+                sl = lib.slice_back(f, [o], through_calls=True, at=(bb, i))
+                alts = [sl]
+                if f.is_closure and sl.args and not sl.fields:
+                    if sub is None:
+                        sub = _closure_arg_slices(F, f)
+                    for a in sl.args:
+                        alts += sub.get(a, [])
+                sides.append(alts)
+            rel = None
+            if any(is_end(x) for x in sides[0]) and any(is_limit(y, f) for y in sides[1]):
+                rel = CMP[rv['op']]
+            elif any(is_end(x) for x in sides[1]) and any(is_limit(y, f) for y in sides[0]):
+                rel = FLIPR[CMP[rv['op']]]
+            if rel is None:
+                continue
+            n += 1
+            ctx.evaluations += 1
+            ctx.touch(f, 1)
+            if rel in ('>', '<='):
+                ctx.ok('AGREE-C28d', f, 'range end compared with its limit as `end %s limit`' % rel, line=st.get('l'))
+            else:
+                ctx.bad('AGREE-C28d', f, 'range end compared with its limit as `end %s limit`: every sibling check uses `end > limit` / `end <= limit`; this one rejects an artifact that ends '
+                        'exactly at the limit, which is where the writers put the last one' % rel, line=st.get('l'), sink='range-end', detail='range-end-relation:' + rel)
+    ctx.floor('AGREE-C28d', n, 4, 'range-end vs limit comparisons')
 
 
 def run(ctx):
@@ -20,6 +100,7 @@ def run(ctx):
     ctx.rule('AGREE-C28b', 'in-memory index installed at commit == decode(bytes persisted); reopen decodes the same bytes with the same decoder')
     ctx.rule('MPT-C28c', 'instant index marks tantivy_dirty')
     F = ctx.facts()
+    range_checks(ctx, F)
     rb = ctx.need('GUARD-C28a', 'Memvid::rebuild_indexes')
     if rb is not None:
         ctx.touch(rb, len(rb.blocks))
